@@ -24,8 +24,8 @@ Lemma Inv_abs_step c st S cl : wfc c -> Inv st S -> Inv (fst (abs_step c (st, S)
 Proof.
   intros Hw I. unfold abs_step. cbn [fst snd]. unfold step.
   destruct (step_ok c st cl) as [[st' r]|] eqn:E; cbn [fst snd].
-  - destruct (step_ok_mon _ _ _ _ _ _ Hw I E) as [S' [Hm I']].
-    destruct cl; cbn [mon_call] in Hm; inversion Hm; subst; exact I'.
+  - pose proof (step_ok_Inv _ _ _ _ _ _ Hw I E) as I'.
+    destruct cl; cbn [mon_call snd] in I'; exact I'.
   - destruct cl; exact I.
 Qed.
 
@@ -107,6 +107,7 @@ Qed.
 (* ---- exact debit / credit and allowance effects, in every reachable state ---- *)
 Lemma forward_exact_debit_credit c cs k tok fee max exp target fn args user relayer au st' ret :
   1 <= min_temp_ttl (c_host c) ->
+  wf_call c (Forward k tok fee max exp target fn args user relayer au) = true ->
   let st := run c cs in
   step_ok c st (Forward k tok fee max exp target fn args user relayer au) = Ok (st', ret) ->
   let F := fwd_addr c k in
@@ -127,8 +128,8 @@ Lemma forward_exact_debit_credit c cs k tok fee max exp target fn args user rela
        (en_root e = ap \/ In ap (en_subs e))) /\
   now st <= exp /\ now st' = now st.
 Proof.
-  intros Hm st H F recipient old fresh. cbn [step_ok] in H.
-  pose proof (forward_spec _ _ _ _ _ _ _ _ _ _ _ _ _ _ _ Hm H) as P.
+  intros Hm Hwf st H F recipient old fresh. cbn [step_ok] in H.
+  pose proof (forward_spec _ _ _ _ _ _ _ _ _ _ _ _ _ _ _ Hm Hwf H) as P.
   pose proof (fp_collect _ _ _ _ _ _ _ _ _ _ _ _ _ _ _ P) as C.
   assert (Hfresh : fresh = need_approve (approval_of k) (ad (now st) (alw_get (get_tok st tok) user F)) max).
   { unfold fresh, old. rewrite allowance_data_ad. destruct k; reflexivity. }
@@ -153,14 +154,17 @@ Qed.
 
 Lemma forward_target_once c st k tok fee max exp target fn args user relayer au st' ret :
   1 <= min_temp_ttl (c_host c) ->
+  wf_call c (Forward k tok fee max exp target fn args user relayer au) = true ->
   step_ok c st (Forward k tok fee max exp target fn args user relayer au) = Ok (st', ret) ->
   In target (c_targets c) /\
   (forall g, get_log (logs st') g =
-     if N.eqb g target then get_log (logs st) target ++ [(fn, args)] else get_log (logs st) g) /\
+     if N.eqb g target
+     then get_log (logs st) target ++ [if is_script fn then (fn, args ++ [AI 0]) else (fn, args)]
+     else get_log (logs st) g) /\
   ret = Z.of_nat (length (get_log (logs st') target)).
 Proof.
-  intros Hm H. cbn [step_ok] in H.
-  pose proof (forward_spec _ _ _ _ _ _ _ _ _ _ _ _ _ _ _ Hm H) as P.
+  intros Hm Hwf H. cbn [step_ok] in H.
+  pose proof (forward_spec _ _ _ _ _ _ _ _ _ _ _ _ _ _ _ Hm Hwf H) as P.
   split; [|split].
   - apply memb_In. apply (fp_target _ _ _ _ _ _ _ _ _ _ _ _ _ _ _ P).
   - apply (fp_logs _ _ _ _ _ _ _ _ _ _ _ _ _ _ _ P).
@@ -222,8 +226,8 @@ Lemma forward_token_allowed c cs tok fee max exp target fn args user relayer au 
   al_count (al st) = 0%N \/ In (Some tok) (enumeration (al st)).
 Proof.
   intros Hm st H. cbn [step_ok] in H.
-  pose proof (forward_spec _ _ _ _ _ _ _ _ _ _ _ _ _ _ _ Hm H) as P.
-  pose proof (cp_allowed _ _ _ _ _ _ _ _ _ _ _ _ _ _ (fp_collect _ _ _ _ _ _ _ _ _ _ _ _ _ _ _ P)) as A.
+  destruct (forward_open _ _ _ _ _ _ _ _ _ _ _ _ _ _ _ Hm H) as [t' [ts3 [ent [tks' [Q _]]]]].
+  pose proof (cp_allowed _ _ _ _ _ _ _ _ _ _ _ _ _ _ (fq_collect _ _ _ _ _ _ _ _ _ _ _ _ _ _ Q)) as A.
   cbn [al_of] in A. unfold is_allowed in A.
   destruct (N.eqb (al_count (al st)) 0) eqn:Ec; [left; apply N.eqb_eq; exact Ec|right].
   pose proof (Inv_run c cs Hm) as I. fold st in I.
